@@ -708,7 +708,7 @@ func history(c *hx.Ctx, r *hx.Rng, ti *typeInfo, size int) {
 func Run(c *hx.Ctx) {
 	ti := &typeInfo{secret: map[reflect.Type]bool{}}
 	c.Emit("C20", "graph", strings.Join(graphFacts(), " "))
-	n := c.N(400, 4000)
+	n := c.N(400, 12000)
 	for i := 0; i < n; i++ {
 		size := 1
 		if i%5 == 0 {
